@@ -12,6 +12,7 @@ import (
 
 	"verifharness/internal/mon"
 	"verifharness/internal/reasm"
+	"verifharness/internal/sched"
 )
 
 // C19: time behaviour of the Reassembler, decided with an interval-bracketed
@@ -203,18 +204,60 @@ func c19Reentrant(c *mon.Ctx, k *c19ReCase) {
 	}
 }
 
+// c19ConcurrentClose: "Close delivers every buffered event once, in order" also when the Close runs
+// between the atomic steps of a concurrent push: every interleaving (controlled scheduler over the verif
+// yield points, as in C11) of programs that push two or three sequences in descending order beside a Close.
+func c19ConcurrentClose(c *mon.Ctx) {
+	ev := c.Counter("evaluations")
+	push := func(seq uint32) sched.POp { return sched.POp{Kind: sched.PushNC, Seq: seq} }
+	var progs []*sched.Program
+	for _, max := range []int{2, 3, 8} {
+		for _, re := range []int{sched.ReNone, sched.ReMaintain} {
+			progs = append(progs,
+				&sched.Program{Max: max, Reenter: re, Threads: [][]sched.POp{{push(9), push(7)}, {{Kind: sched.Close}}}},
+				&sched.Program{Max: max, Reenter: re, Threads: [][]sched.POp{{push(9), push(8), push(7)}, {{Kind: sched.Close}}}},
+				&sched.Program{Max: max, Reenter: re, Threads: [][]sched.POp{{push(9), push(7)}, {{Kind: sched.Maintain}, {Kind: sched.Close}}}},
+				&sched.Program{Max: max, Reenter: re, Threads: [][]sched.POp{{push(9)}, {push(7)}, {{Kind: sched.Close}}}},
+				&sched.Program{Max: max, Reenter: re, Threads: [][]sched.POp{{push(9), {Kind: sched.PushC, Seq: 8}, push(7)}, {{Kind: sched.Close}}}},
+			)
+		}
+	}
+	for _, p := range progs {
+		res := sched.Explore(p, -1, 200000)
+		ev.Add(res.Schedules)
+		c.Add("concurrent_close_schedules", res.Schedules)
+		c.Nontrivial(p.String())
+		if res.Timeout && len(res.Findings) == 0 {
+			c.Inconclusive("concurrent-close: a schedule of program " + p.String() + " did not finish")
+			return
+		}
+		for _, f := range res.Findings {
+			if f.Sig == "close-flush-out-of-order" {
+				c.Violation("close:"+f.Sig, fmt.Sprintf("%s\n  program: %s\n  schedule (choice sequence): %v", f.What, p.String(), res.FailChoice), map[string]any{"program": p, "choices": res.FailChoice})
+			}
+		}
+	}
+	c.Require("concurrent_close_schedules", 100)
+}
+
 func init() {
 	register(&mon.CheckSpec{
 		ID: "C19", Level: "exploration",
-		Rule: "cases = seeded histories of <= 12 ops (pushes of completing / non-completing / EOE records, real sleeps drawn from {0, T/2, 2T, 5T}, Maintain) followed by Close and 0-3 further Maintain/Close calls, for timeout T in {-2^63 ns, -1s, 0, 2ms, 5ms, 20ms, 1h, 250 years, 2^63-1 ns} x maxInFlight in {0,1,3,8}; every call is bracketed by monotonic timestamps and each eviction decision is classified certainly-expired / certainly-fresh / uncertain (uncertain decisions accept either outcome). distinct_nontrivial = distinct histories (by text) with at least one certainly-expired or certainly-fresh decision.",
+		Rule: "cases = seeded histories of <= 12 ops (pushes of completing / non-completing / EOE records, real sleeps drawn from {0, T/2, 2T, 5T}, Maintain) followed by Close and 0-3 further Maintain/Close calls, for timeout T in {-2^63 ns, -1s, 0, 2ms, 5ms, 20ms, 1h, 250 years, 2^63-1 ns} x maxInFlight in {0,1,3,8}; every call is bracketed by monotonic timestamps and each eviction decision is classified certainly-expired / certainly-fresh / uncertain (uncertain decisions accept either outcome). A second phase (concurrent-close) enumerates, with the controlled scheduler of C11, every interleaving of programs that push 2-3 sequences in descending order beside a Close: the groups one Close call delivers must come in ascending order. distinct_nontrivial = distinct histories (by text) with at least one certainly-expired or certainly-fresh decision, plus the concurrent-close programs.",
 		Assumptions: []string{
 			"the library's time.Now() readings lie inside the harness's monotonic bracket of the same call (same process, same clock)",
 			"decisions that fall inside the uncertainty interval around an expiry instant are not decided (counted separately)",
 			"NewReassembler(nil stream) is probed directly",
 			"a Maintain or Close made from inside a callback of the flushing Close counts as made 'afterwards' (the closed flag is set before the flush; C11 demands that exactly one Close succeeds, re-entrant ones included)",
 		},
-		Phases: plainPhase("timed"),
+		Phases: func(string) []mon.PhaseSpec {
+			return []mon.PhaseSpec{{Name: "timed", Flavour: "plain"}, {Name: "concurrent-close", Flavour: "plain", Env: []string{"GOMAXPROCS=1"}}}
+		},
 		Run: func(c *mon.Ctx) {
+			if c.Phase == "concurrent-close" {
+				c19ConcurrentClose(c)
+				return
+			}
 			n := c.Pick(20000, 3000000)
 			const conc = 256
 			ev := c.Counter("evaluations")
@@ -281,6 +324,20 @@ func init() {
 			c.Require("calls_after_close_observed", 1)
 		},
 		Replay: func(c *mon.Ctx, kase json.RawMessage) {
+			var ck struct {
+				Program *sched.Program `json:"program"`
+				Choices []int          `json:"choices"`
+			}
+			if json.Unmarshal(kase, &ck) == nil && ck.Program != nil {
+				fmt.Println("replay: concurrent-close program", ck.Program.String(), "schedule", ck.Choices)
+				run := sched.Execute(ck.Program, ck.Choices, nil)
+				for _, f := range run.Findings {
+					if f.Sig == "close-flush-out-of-order" {
+						c.Violation("close:"+f.Sig, f.What, kase)
+					}
+				}
+				return
+			}
 			var rk c19ReCase
 			if json.Unmarshal(kase, &rk) == nil && len(rk.Seqs) > 0 {
 				fmt.Printf("replay: re-entrant case %+v\n", rk)
